@@ -1104,17 +1104,27 @@ def unmodelled_composites_decode(ck):
     alpha = [0x00, 0x01, 0x02, 0x03, 0xFF]
     tails = cr.small_strings(alpha, 4 if ck.tier == "quick" else 5)
     n = 0
-    for rq in raw.requests:
+    objs = [(rq, "UNMODELLED_DOC") for rq in raw.requests]
+    try:
+        raw_b = hc.load_docs([UNMODELLED_DOC2]).diag_layers[0].diag_layer_raw
+        objs += [(x, "UNMODELLED_DOC2") for x in list(raw_b.requests) + list(raw_b.positive_responses)]
+        # trouble codes, known and unknown, in front of short tails; table keys
+        tails_b = [bytes.fromhex(h) + t for h in ("112233", "445566", "778899", "000000", "1122") for t in cr.small_strings([0, 1, 0xFF], 3)]
+        tails_b += [bytes([k]) + t for k in (1, 7, 200, 0, 2) for t in cr.small_strings([0, 5, 0xFF], 3)]
+    except Exception as e:  # noqa
+        ck.note_broken(f"cannot load the DTC / environment data / table document: {type(e).__name__}: {e}")
+        tails_b = []
+    for rq, docname in objs:
         sid = bytes(rq.coded_const_prefix())
-        for t in tails:
+        for t in (tails if docname == "UNMODELLED_DOC" else tails_b + tails[:160]):
             m = sid + t
             n += 1
             r, e, _ = cc.guarded(lambda: rq.decode(m), timeout=3)
             ck.count(("mux", rq.short_name, m))
             if e is not None and not isinstance(e, DecodeError):
                 what = "does not terminate" if isinstance(e, cc.Hang) else f"raised {type(e).__name__}: {e}"
-                ck.violation(f"decoding {m.hex()} with request {rq.short_name} (end-of-PDU field of multiplexer items / multiplexer) {what}",
-                             {"document": "harness/codec_checks.py UNMODELLED_DOC", "request": rq.short_name, "msg": m.hex()})
+                ck.violation(f"decoding {m.hex()} with {rq.short_name} of {docname} (multiplexers, trouble codes, environment data, tables) {what}",
+                             {"document": f"harness/codec_checks.py {docname}", "request": rq.short_name, "msg": m.hex()})
                 break
     ck.coverage["multiplexer_messages"] = n
     code_pages_decode(ck, raw)
